@@ -23,7 +23,7 @@ func itemGen() *rapid.Generator[gen.Item] {
 	anyItem := gen.AnyItem(gen.TokJSONKey, 1)
 	long := gen.BoundaryString(gen.TokJSONKey)
 	return rapid.Custom(func(t *rapid.T) gen.Item {
-		if rapid.IntRange(0, 199).Draw(t, "long") == 0 {
+		if gen.Rarely(t, "long", 150) {
 			return gen.S(long.Draw(t, "longv"))
 		}
 		switch rapid.IntRange(0, 19).Draw(t, "special") {
@@ -52,7 +52,7 @@ func caseGen() *rapid.Generator[Case] {
 		if rapid.IntRange(0, 39).Draw(t, "empty-key") == 0 {
 			min = 0
 		}
-		if rapid.IntRange(0, 79).Draw(t, "long-key") == 0 {
+		if gen.Rarely(t, "long-key", 150) {
 			return gen.S(gen.BoundaryString(keyTokens).Draw(t, "longkey"))
 		}
 		return gen.S(gen.StringOf(keyTokens, min, 2).Draw(t, "key"))
